@@ -51,7 +51,10 @@ def run(ctx, prog):
     ctx.rule('C20-D5', 'str and Path outputs both construct the writer')
     ctx.assume('the user function either returns (None / data) or raises Exception / KeyboardInterrupt; the ETS writer stores what it is given')
     ci = prog.need_class('scared.synchronization', 'Synchronizer')
+    from .. import inline
     run_f = prog.resolve_method(ci, 'run')
+    if run_f is not None:
+        run_f = inline.inlined(prog, run_f)
     init_f = prog.resolve_method(ci, '__init__')
     if run_f is None or init_f is None:
         raise AnalysisError('Synchronizer.run/__init__ not found')
